@@ -14,7 +14,36 @@
      - a fault (zero divisor, index out of bounds, nil record) unwinds to the first matching
        catch clause of the innermost active function that has one; an exception raised inside a
        clause is offered to the later clauses of the same function only.
-   Big-step, with explicit fuel (RFuel when exhausted). *)
+   Big-step, with explicit fuel (RFuel when exhausted).
+
+   for-in loops (measured on the unchanged tree with `never -f`, and read in front/parser.y
+   `TOK_FOR '(' TOK_ID TOK_IN expr ')' expr`, front/tcforin.c, front/emit.c expr_forin_*_emit):
+     - the iterable must be a one-dimensional range, array or slice (a string is rejected by
+       expr_forin_check_type); the modelled core has ranges only in this position
+       (EForInRange) and arrays (EForInArr); slices are outside the core (over a slice the loop
+       variable is the element cell of the underlying array, like over an array);
+     - the iterable is evaluated first and once.  The two bounds of a range `[a .. b]` are
+       evaluated right to left (b, then a) and copied: assigning to a variable that occurs in a
+       bound inside the body does not change the loop;
+     - range: if a < b the loop runs a, a+1, .., b, otherwise a, a-1, .., b (so both bounds are
+       inclusive, a = b gives one iteration, and there is no empty range).  Every iteration
+       binds the loop variable to a FRESH cell holding the current value (OP_DUP_INT), so a
+       function value created in the body captures a cell of its own; the hidden counter is
+       stepped with OP_INC_INT / OP_DEC_INT after the body: 32-bit wrap-around, so a range that
+       ends at 2147483647 (ascending) or -2147483648 (descending) never terminates;
+       the loop variable is CONST (`i = ..` and `var z = i` are rejected);
+     - array: iteration k (k = 0, 1, ..) re-reads the array reference in the CELL the iterable
+       evaluated to (ID_DIM_LOCAL / ARRAYREF_DEREF on that slot), stops when k is not below its
+       present length, and binds the loop variable to the k-th ELEMENT CELL itself: no copy; an
+       assignment to the loop variable is an assignment to the element (allowed iff the array
+       expression is VAR: the variable has the constness of the iterable); assigning another
+       array to the iterated variable in the body redirects the remaining iterations;
+     - the loop variable lives in a scope of its own around the body (a block body may
+       re-declare the name); it shadows outer bindings during the body only;
+     - the value of the loop is a fresh int 0 (TEMP); the body may have any type;
+     - a fault in the body (or in the iterable) leaves the loop at once and unwinds as usual.
+   The number of iterations is bounded by the fuel of the loop expression; each iteration's body
+   runs with that fuel. *)
 From Coq Require Import ZArith List Bool.
 From NV Require Import Src.Syntax.
 Import ListNotations.
@@ -157,6 +186,63 @@ Fixpoint func_env (fds : list fdef) (c : nat) (e : env) : env :=
 
 Definition add_cells (st : state) (vs : list cellval) : state :=
   {| cells := cells st ++ vs; arrs := arrs st; recs := recs st; out := out st |}.
+
+(* ---- for-in loops ---------------------------------------------------------------------- *)
+
+(* what remains to be iterated *)
+Inductive lsrc :=
+| LUp (z zb : Z)               (* ascending range: next value z, last value zb *)
+| LDown (z zb : Z)             (* descending range *)
+| LArr (ca : nat) (i : nat).   (* the cell holding the array reference, next index *)
+
+Inductive lstep :=
+| LsDone
+| LsFault (r : res)
+| LsBind (c : nat) (st : state) (next : lsrc).   (* cell of the loop variable for this iteration *)
+
+Definition forin_step (st : state) (s : lsrc) : lstep :=
+  match s with
+  | LUp z zb =>
+    if z <=? zb then let (c, st1) := alloc st (CInt z) in LsBind c st1 (LUp (wrap32 (z + 1)) zb)
+    else LsDone
+  | LDown z zb =>
+    if zb <=? z then let (c, st1) := alloc st (CInt z) in LsBind c st1 (LDown (wrap32 (z - 1)) zb)
+    else LsDone
+  | LArr ca i =>
+    match get_cell st ca with
+    | Some (CArr None) => LsFault (RExc ExNil)
+    | Some (CArr (Some ar)) =>
+      match nth_error (arrs st) ar with
+      | Some elems =>
+        match nth_error elems i with
+        | Some c => LsBind c st (LArr ca (S i))
+        | None => LsDone
+        end
+      | None => LsFault RStuck
+      end
+    | _ => LsFault RStuck
+    end
+  end.
+
+(* `ev c st` runs the body with the loop variable bound to cell c; at most n iterations *)
+Fixpoint forin_loop (ev : nat -> state -> res * state) (n : nat) (s : lsrc) (st : state)
+  : res * state :=
+  match n with
+  | O => (RFuel, st)
+  | S n' =>
+    match forin_step st s with
+    | LsDone => let (c, st') := alloc st (CInt 0) in (ROk c, st')
+    | LsFault r => (r, st)
+    | LsBind c st1 s' =>
+      match ev c st1 with
+      | (ROk _, st2) => forin_loop ev n' s' st2
+      | r => r
+      end
+    end
+  end.
+
+(* the direction of a range loop is fixed by the two bounds at entry *)
+Definition range_src (za zb : Z) : lsrc := if za <? zb then LUp za zb else LDown za zb.
 
 Section Eval.
 Variable genv : env.     (* top-level functions: name -> cell holding CFun fd [] *)
@@ -324,6 +410,21 @@ Fixpoint eval (fuel : nat) (e : env) (st : state) (x : expr) {struct fuel} : res
     | EFor init cond incr body =>
       match eval k e st init with
       | (ROk _, st1) => eval k e st1 (EWhile cond (EBlock [IExpr body; IExpr incr]))
+      | r => r end
+    | EForInRange x a b body =>
+      match eval k e st b with
+      | (ROk cb, st1) =>
+        match eval k e st1 a with
+        | (ROk ca, st2) =>
+          match get_int st2 ca, get_int st2 cb with
+          | Some za, Some zb =>
+            forin_loop (fun c s => eval k ((x, c) :: e) s body) k (range_src za zb) st2
+          | _, _ => (RStuck, st2) end
+        | r => r end
+      | r => r end
+    | EForInArr x arr body =>
+      match eval k e st arr with
+      | (ROk ca, st1) => forin_loop (fun c s => eval k ((x, c) :: e) s body) k (LArr ca 0) st1
       | r => r end
     | ELambda fd => fresh st (CFun fd e)
     | EArrLit es _ =>
